@@ -175,7 +175,7 @@ func mapFormToStruct(val reflect.Value, form map[string][]string) error {
 
 		numElems := len(inputValue)
 		if structFieldKind == reflect.Array && numElems > 0 {
-			for i := 0; i < numElems; i++ {
+			for i := 0; i < numElems && i < structField.Len(); i++ {
 				arrayOf := structField.Type().Elem().Kind()
 				if err := setWithProperType(arrayOf, inputValue[i], structField.Index(i)); err != nil {
 					return err
